@@ -213,6 +213,46 @@ def extract_tagged(output: str, tag: str) -> list:
         res.append(parse_tla_value(txt))
 
 
+_RE_STATE = re.compile(r"^STATE_(\d+) ==\s*$", re.M)
+_RE_CONJ = re.compile(r"^/\\ (\w+) = ", re.M)
+
+
+def parse_behaviour_file(path: Path) -> list[dict]:
+    """Parse a file written by `tlc -simulate file=...` (or a TLC counterexample in the same layout):
+    list of states, each a dict variable -> parsed value."""
+    text = Path(path).read_text()
+    states = []
+    marks = list(_RE_STATE.finditer(text))
+    for i, m in enumerate(marks):
+        end = marks[i + 1].start() if i + 1 < len(marks) else len(text)
+        block = text[m.end():end]
+        # cut trailing comment / module end lines
+        block = re.split(r"^\\\* <|^={4,}", block, flags=re.M)[0]
+        conj = list(_RE_CONJ.finditer(block))
+        st = {}
+        for j, c in enumerate(conj):
+            vend = conj[j + 1].start() if j + 1 < len(conj) else len(block)
+            st[c.group(1)] = parse_tla_value(block[c.end():vend].strip())
+        states.append(st)
+    return states
+
+
+def simulate(spec: str, cfg: Path, wd: Path, *, num: int, depth: int, seed: int, tag: str = "sim", timeout: int = 600) -> list[list[dict]]:
+    """Generate `num` behaviours of the specification with TLC's simulator and parse them."""
+    pref = wd / f"{tag}_beh"
+    res = run_tlc(spec, cfg, wd, workers=1, timeout=timeout, simulate=f"file={pref},num={num}",
+                  extra=["-depth", str(depth), "-seed", str(seed)])
+    if not res.ok:
+        raise MachineryError(f"TLC simulation failed ({spec}, {cfg}):\n{res.error_text()}")
+    files = sorted(wd.glob(f"{tag}_beh_*"))
+    if not files:
+        raise MachineryError(f"TLC simulation wrote no behaviour files for {spec}")
+    out = [parse_behaviour_file(f) for f in files]
+    for f in files:
+        f.unlink()
+    return out
+
+
 class TLCResult:
     def __init__(self, rc: int, out: str, wall: float, cmd: list[str]):
         self.rc = rc
